@@ -219,6 +219,34 @@ def check_property(prop, tier, seed, replay=None):
     except Exception as e:  # a crash of the machinery must not look like success
         broken.append(("machinery", traceback.format_exc()[-3000:]))
 
+    # 5a. extraction cross-check: a deterministic sample of the scripts the model was given is evaluated
+    # INSIDE Coq (vm_compute on a term rendered from the script text by tools/coqeval.py) and compared with the
+    # numeric serialisation the extracted OCaml engine prints for the same scripts (driver --codes)
+    xc_differences = []
+    try:
+        if evaluations:
+            given = []
+            for c in cases:
+                if c.sid in model and not c.meta.get("impl_only"):      # impl_only: the model's trace is not used
+                    given.append(prop.model_script(c, impl.get(c.sid, [])))
+                if extra and c.sid in extra:
+                    given.append(prop.extra_model_script(c, impl.get(c.sid, [])))
+            want = int(os.environ.get("VERIF_CROSSCHECK_N", "120" if tier == "thorough" else "12"))
+            xc = extraction_crosscheck([g for g in given if g], want, seed, prop.id)
+            if xc is not None:
+                xc_differences = xc.pop("differences")
+                errors = xc.pop("errors")
+                coverage["coq_crosscheck"] = xc
+                if xc_differences:
+                    broken.append(("extraction-crosscheck", "in-Coq evaluation and extracted engine differ on %d of %d scripts; first: %s: %s"
+                                   % (len(xc_differences), xc["scripts_evaluated_in_coq"], xc_differences[0][0], xc_differences[0][2])))
+                if errors:
+                    broken.append(("extraction-crosscheck", "the cross-check could not be carried out: " + "; ".join(errors)[:1500]))
+    except BuildError as e:
+        broken.append(("extraction-crosscheck", "the cross-check could not be carried out: " + str(e)[:1500]))
+    except Exception:
+        broken.append(("extraction-crosscheck", "the cross-check could not be carried out: " + traceback.format_exc()[-1500:]))
+
     if evaluations == 0 and not any(b[0] in ("harness-or-model-build", "machinery") for b in broken):
         broken.append(("machinery", "no script was executed"))
     coverage["evaluations"] = evaluations
@@ -268,6 +296,8 @@ def check_property(prop, tier, seed, replay=None):
             what.append({"broken": "correspondence", "script": c.script, "impl_trace": it, "model_trace": mt})
         for c, it, xt in xmismatches[:5]:
             what.append({"broken": "correspondence-ofull", "script": c.script, "impl_trace": it, "model_trace": xt})
+        for sid, text, diff in xc_differences[:5]:
+            what.append({"broken": "extraction-crosscheck", "script": text, "difference": diff})
         path = write_replay(prop.id, "unexplained.json",
                             {"property": prop.id, "no_failing_input_found": True,
                              "theorems_or_correspondence_no_longer_checking": what})
@@ -287,6 +317,11 @@ def check_property(prop, tier, seed, replay=None):
         print("%s second pass (%s): %d scripts compared, %d mismatches, %d not covered (%d by script, %d by model)"
               % (prop.id, getattr(prop, "extra_what", "second model"), xpass["compared"], len(xmismatches),
                  xpass["skipped_by_script"] + xpass["skipped_by_model"], xpass["skipped_by_script"], xpass["skipped_by_model"]))
+    if "coq_crosscheck" in coverage:
+        xc = coverage["coq_crosscheck"]
+        print("%s extraction cross-check: %d scripts evaluated in Coq, %d agreeing with the extracted engine (sample of %d with an in-Coq evaluator; %s), %.1fs"
+              % (prop.id, xc["scripts_evaluated_in_coq"], xc["scripts_agreeing"], xc["candidates"],
+                 ", ".join("%s %d" % kv for kv in sorted(xc["engines"].items())) or "no engine", xc["seconds"]))
     if broken:
         for kind, text in broken:
             print("BROKEN %s: %s" % (kind, text[:600].replace("\n", " | ")))
@@ -295,6 +330,39 @@ def check_property(prop, tier, seed, replay=None):
     for c, it, xt in xmismatches[:3]:
         print("MISMATCH-ofull %s\n  script: %s\n  %s" % (c.sid, c.script.replace("\n", " / ")[:600], first_difference(prop.extra_canon(it, "impl"), prop.extra_canon(xt, "model"))))
     return exit_code
+
+
+def extraction_crosscheck(script_texts, want, seed, pid):
+    """None when no script of the run has an in-Coq evaluator; else the evidence record plus `differences`
+    [(sid, script, description)] and `errors` [text]"""
+    import coqeval
+    chosen, candidates = coqeval.sample(script_texts, want, seed)
+    if not chosen:
+        return None
+    t0 = time.time()
+    engines = {}
+    for txt in chosen:
+        e = txt.split()[2]
+        engines[e] = engines.get(e, 0) + 1
+    work = os.path.join(WORK, pid, "p%d" % os.getpid(), "xc")
+    try:
+        res = None
+        for attempt in (0, 1):
+            # the extracted driver and the compiled serialisers must be those of the current model files
+            build_model()
+            ok, out, _ = coq_build(sorted(set(coqeval.ENGINES[e][2] for e in engines)))
+            if not ok:
+                raise BuildError("coq build of the serialisers failed:\n" + out[-1500:])
+            res = coqeval.crosscheck(chosen, work)
+            if not res["errors"]:
+                break           # a .vo replaced while coqc was loading it: build again, try once more
+    finally:
+        shutil.rmtree(os.path.join(WORK, pid, "p%d" % os.getpid()), ignore_errors=True)
+    return {"scripts_evaluated_in_coq": res["evaluated"], "scripts_agreeing": res["agreeing"], "sampled": len(chosen),
+            "candidates": candidates, "engines": engines, "seconds": round(time.time() - t0, 1),
+            "what": "Eval vm_compute of the model on a term rendered from the script text (tools/coqeval.py) = numeric "
+                    "serialisation (coq/Codes) printed by the extracted OCaml engine (driver --codes)",
+            "differences": res["differences"], "errors": res["errors"]}
 
 
 def first_difference(a, b):
